@@ -48,6 +48,8 @@ class Subject:
             self.ast = ast
         elif arch == "deadend":
             self.ast = gen.arch_deadend(gen.Ctx(rng, small=small, form=form), families, mean_units)
+        elif arch == "twinends":
+            self.ast = gen.arch_twinends(gen.Ctx(rng, small=small, form=form), families, mean_units)
         elif arch == "hostile_h":
             self.ast = gen.arch_hostile_h(gen.Ctx(rng, small=True, form=form), families, mean_units)
         else:
